@@ -5,6 +5,7 @@ import PyrexVerif.Proofs.PropFresnel
 import PyrexVerif.Proofs.PropBasis
 import PyrexVerif.Proofs.PropInterp
 import PyrexVerif.Proofs.PropPropagate
+import PyrexVerif.Proofs.PropExtra
 /-!
 # C03 — ray propagation is passive, delays by the time of flight, polarisation transverse
 
@@ -271,6 +272,36 @@ theorem C03_propagate_passive (times vals : List ℝ) (pol : V3) (tof : ℝ) (a 
       ≤ dot pol pol * (vals.map (fun v => v ^ 2)).sum :=
   PropLemmas.propagate_passive_ray times vals pol tof a c a' c' φ rs rp att hlen hatt hrs hrp hac hac'
 
+/-- degenerate polarisation: without s-amplitude the s-signal is identically zero **and still on the grid delayed by
+the time of flight** (an "optimisation" that skips such a component may not skip the time shift) -/
+theorem C03_propagate_zero_s (times vals : List ℝ) (pol : V3) (tof : ℝ) (e r : V3) (φ : ℝ) (rs rp : Cx)
+    (att : ℝ → ℝ) (hlen : vals.length = times.length) (h0 : dot pol (polBasis e r φ).1 = 0) :
+    (propagate times vals pol tof e r φ rs rp att).sigS = List.replicate times.length 0
+    ∧ (propagate times vals pol tof e r φ rs rp att).times = times.map (· + tof) :=
+  PropLemmas.propagate_zero_s times vals pol tof e r φ rs rp att hlen h0
+
+theorem C03_propagate_zero_p (times vals : List ℝ) (pol : V3) (tof : ℝ) (e r : V3) (φ : ℝ) (rs rp : Cx)
+    (att : ℝ → ℝ) (hlen : vals.length = times.length) (h0 : dot pol (polBasis e r φ).2.1 = 0) :
+    (propagate times vals pol tof e r φ rs rp att).sigP = List.replicate times.length 0 :=
+  PropLemmas.propagate_zero_p times vals pol tof e r φ rs rp att hlen h0
+
+/-- the all-zero signal propagates to two all-zero signals on the delayed grid -/
+theorem C03_propagate_zero_signal (times : List ℝ) (pol : V3) (tof : ℝ) (e r : V3) (φ : ℝ) (rs rp : Cx)
+    (att : ℝ → ℝ) :
+    (propagate times (List.replicate times.length 0) pol tof e r φ rs rp att).sigS = List.replicate times.length 0
+    ∧ (propagate times (List.replicate times.length 0) pol tof e r φ rs rp att).sigP
+        = List.replicate times.length 0
+    ∧ (propagate times (List.replicate times.length 0) pol tof e r φ rs rp att).times = times.map (· + tof) :=
+  PropLemmas.propagate_zero_signal times pol tof e r φ rs rp att
+
+/-- `propagate(signal)` without polarisation (no `force_real`, negative frequencies are looked up) applies the same
+factor as the polarised form whenever the attenuation depends on `|f|` only: it is the s-signal for unit
+s-amplitude and `r_s = 1` -/
+theorem C03_scalar_eq_s_component (times vals : List ℝ) (pol : V3) (tof : ℝ) (e r : V3) (φ : ℝ) (rp : Cx)
+    (att : ℝ → ℝ) (heven : ∀ f, att (-f) = att f) (h1 : dot pol (polBasis e r φ).1 = 1) :
+    (propagate times vals pol tof e r φ (1, 0) rp att).sigS = (propagateScalar times vals tof att).2 :=
+  PropLemmas.scalar_eq_s_component times vals pol tof e r φ rp att heven h1
+
 /-! ### non-vacuity -/
 
 /-- a non-vertical and a vertical emitted direction meeting the hypotheses of the basis theorems -/
@@ -290,3 +321,34 @@ example : ([0, 1] : List ℝ) ≠ [] ∧ List.Pairwise (· ≥ ·) ([1, 0.5] : L
 /-- attenuation lengths 500 m → 400 m on a two-point leg meet the hypothesis of the monotonicity theorems -/
 example : List.Forall₂ (fun L1 L2 : ℝ => 0 < L2 ∧ L2 ≤ L1) [500, 500] [400, 450] := by
   refine List.Forall₂.cons (by norm_num) (List.Forall₂.cons (by norm_num) List.Forall₂.nil)
+
+/-- a depth and two frequencies meeting the hypotheses of `C03_L_antarctic_mono` / `C03_L_arasim_mono` -/
+example : ant_lo ≤ (-100 : ℝ) ∧ (-100 : ℝ) ≤ ant_hi ∧ (0 : ℝ) < 1e8 ∧ (1e8 : ℝ) ≤ 1e9 ∧ (-2850 : ℝ) ≤ -100 := by
+  unfold ant_lo ant_hi; norm_num
+
+/-- total internal reflection occurs: grazing incidence from ice into air (`C03_reflect_tir_unit`) -/
+example : (1 : ℝ) < 1.78 / 1 * Real.sin (Real.pi / 2) := by rw [Real.sin_pi_div_two]; norm_num
+
+/-- an attenuation in `[0,1]` that depends on `|f|` only, unit Fresnel coefficients (`C03_propagate_passive`,
+`C03_scalar_eq_s_component`) -/
+example : (∀ f : ℝ, 0 ≤ (fun f : ℝ => 1 / (1 + f ^ 2)) f ∧ (fun f : ℝ => 1 / (1 + f ^ 2)) f ≤ 1)
+    ∧ (∀ f : ℝ, (fun f : ℝ => 1 / (1 + f ^ 2)) (-f) = (fun f : ℝ => 1 / (1 + f ^ 2)) f)
+    ∧ cnormSq ((1, 0) : Cx) ≤ 1 := by
+  refine ⟨fun f => ⟨by positivity, ?_⟩, fun f => by simp, by simp [cnormSq]⟩
+  have : (0 : ℝ) < 1 + f ^ 2 := by positivity
+  rw [div_le_one this]; nlinarith [sq_nonneg f]
+
+/-- a polarisation with exactly zero s-amplitude exists for a non-vertical ray: the vertical polarisation
+(`C03_propagate_zero_s`) — `u_s0` has no z-component -/
+example (a c φ : ℝ) (r : V3) (ha : a ≠ 0) :
+    dot ((0, 0, 1) : V3) (polBasis (a * Real.cos φ, a * Real.sin φ, c) r φ).1 = 0 := by
+  rw [(PropLemmas.pol_basis_us a c φ r ha).1]; simp [dot]
+
+/-- segments of positive step and positive attenuation lengths (`C03_uniform_atten_range`), positive indices
+(`C03_uniform_fresnel_prod_le_one`, `C03_layered_reflection_le_one`) -/
+example : (∀ s ∈ ([(1.0, [500, 450])] : List (ℝ × List ℝ)), 0 ≤ s.1 ∧ ∀ L ∈ s.2, (0 : ℝ) < L)
+    ∧ (0 : ℝ) < 1.78 ∧ (0 : ℝ) < 1.3 ∧ (-1 : ℝ) ≤ 0.5 ∧ (0.5 : ℝ) ≤ 1 := by
+  refine ⟨?_, by norm_num, by norm_num, by norm_num, by norm_num⟩
+  intro s hs; simp at hs; subst hs
+  refine ⟨by norm_num, ?_⟩
+  intro L hL; simp at hL; rcases hL with rfl | rfl <;> norm_num
